@@ -87,6 +87,7 @@ type (
 		scn    *Scenario
 		mu     sync.Mutex
 		events []Event
+		sched  *procSched // non-nil while a schedule is being replayed (sched.go)
 	}
 	ctxKey int
 )
@@ -126,6 +127,7 @@ func Invoked(ctx context.Context, svc, method string, payload any, resType refle
 	if st == nil {
 		return nil, "", errors.New("verif: no scenario in context")
 	}
+	gate(ctx, "invoke")
 	ev := Event{"ev": "invoke", "service": svc, "method": method}
 	if payload != nil {
 		ev["payload"] = Dump(payload)
@@ -220,6 +222,7 @@ func Auth(ctx context.Context, kind string, cred map[string]string, scheme any) 
 	if st == nil {
 		return ctx, errors.New("verif: no scenario in context")
 	}
+	gate(ctx, "auth")
 	name, scopes, required := "", []string{}, []string{}
 	switch s := scheme.(type) {
 	case *security.BasicScheme:
@@ -345,7 +348,7 @@ func (rt *Runtime) mount() {
 				st.add(Event{"ev": "errhandler", "error": err.Error()})
 			}
 		}
-		s.Mount(eps, mountTarget(rt.mux, n), &MountOpts{Dec: goahttp.RequestDecoder, Enc: goahttp.ResponseEncoder, EH: eh, Fmt: nil})
+		s.Mount(eps, mountTarget(rt.mux, n), &MountOpts{Dec: gatedDec, Enc: gatedEnc, EH: eh, Fmt: nil})
 	}
 }
 
@@ -371,8 +374,10 @@ func errInfo(err error) any {
 	return info
 }
 
-func (rt *Runtime) runOne(scn *Scenario) map[string]any {
-	st := &scnState{scn: scn}
+func (rt *Runtime) runOne(scn *Scenario) map[string]any { return rt.runOneSched(scn, nil) }
+
+func (rt *Runtime) runOneSched(scn *Scenario, ps *procSched) map[string]any {
+	st := &scnState{scn: scn, sched: ps}
 	t := &tap{rt: rt, st: st}
 	func() {
 		defer func() {
@@ -456,6 +461,7 @@ func Main() {
 	out := flag.String("out", "out.ndjson", "observations (ndjson)")
 	par := flag.Int("parallel", 1, "number of goroutines running scenarios concurrently")
 	rounds := flag.Int("rounds", 1, "repeat the scenario list this many times (parallel mode)")
+	schedules := flag.String("schedules", "", "schedules to replay (ndjson): scenarios run K at a time, gated (sched.go)")
 	flag.Parse()
 	theRT.mount()
 	dumpMounts()
@@ -494,7 +500,15 @@ func Main() {
 		wmu.Unlock()
 	}
 	start := time.Now()
-	if *par <= 1 {
+	if *schedules != "" {
+		byID := map[string]*Scenario{}
+		for _, s := range scns {
+			byID[s.ID] = s
+		}
+		for _, sch := range readSchedules(*schedules) {
+			write(theRT.runSchedule(sch, byID))
+		}
+	} else if *par <= 1 {
 		for _, s := range scns {
 			write(theRT.runOne(s))
 		}
